@@ -11,7 +11,7 @@ from netqasm.lang.parsing.binary import deserialize
 from netqasm.lang.parsing.text import parse_text_subroutine
 from netqasm.lang.subroutine import Subroutine
 
-PATHS = ("direct", "text", "text+nv-transpiler", "setter", "instantiate", "template", "template-numpy-integer", "sdk", "sdk-array-index", "sdk-until-bound")
+PATHS = ("direct", "text", "text+nv-transpiler", "text+nv-transpiler-others-zero", "setter", "instantiate", "template", "template-numpy-integer", "sdk", "sdk-array-index", "sdk-until-bound", "sdk-loop-bound")
 CLASSICAL = ("jmp", "bez", "bnz", "beq", "bne", "blt", "bge", "set", "add", "sub", "addm", "subm", "store", "load", "lea", "undef", "array", "ret_reg", "ret_arr")
 ASSUME = [
     "one out-of-range operand per vector, the others at in-range base values",
@@ -51,8 +51,12 @@ def attempt(path: str, v, cls, val):
         ops[v["pos"] - 1] = (ops[v["pos"] - 1] // 16, val)
     else:
         ops[v["pos"] - 1] = val
-    if path in ("setter", "instantiate", "template", "template-numpy-integer", "sdk", "sdk-array-index", "sdk-until-bound"):
+    if path in ("setter", "instantiate", "template", "template-numpy-integer", "sdk", "sdk-array-index", "sdk-until-bound", "sdk-loop-bound"):
         return attempt_other(path, v, cls, val, ops)
+    if path == "text+nv-transpiler-others-zero":
+        # the other immediates of the instruction are zero (a rotation by zero sixteenths, say): the operand under test is
+        # still what the program says
+        ops = [0 if (k == "i" and j != v["pos"] - 1) else o for j, (k, o) in enumerate(zip(isa.operand_kinds(v["shape"]), ops))]
     try:
         instr = isa.build(cls, v["shape"], ops)
         if path == "direct":
@@ -60,7 +64,7 @@ def attempt(path: str, v, cls, val):
         else:
             text = f"# NETQASM 0.0\n# APPID {app}\n{instr}\n"
             sub = parse_text_subroutine(text, flavour=isa.FLAVOURS[v["fl"]]())
-            if path == "text+nv-transpiler":
+            if path in ("text+nv-transpiler", "text+nv-transpiler-others-zero"):
                 # the assembled (vanilla) subroutine goes through the NV transpiler before it is serialised
                 from netqasm.sdk.transpile import NVSubroutineTranspiler
                 sub = NVSubroutineTranspiler(sub).transpile()
@@ -75,12 +79,14 @@ def applicable(path: str, v) -> bool:
     if path in ("direct", "text"):
         return True
     if path == "text+nv-transpiler":
-        return v["fl"] == "vanilla" and v["mn"] in CLASSICAL
+        return v["fl"] == "vanilla" and (v["mn"] in CLASSICAL or v["mn"] in ("rot_x", "rot_y", "rot_z"))
+    if path == "text+nv-transpiler-others-zero":
+        return v["fl"] == "vanilla" and v["kind"] == "imm" and v["mn"] in ("rot_x", "rot_y", "rot_z")
     if path in ("setter", "instantiate"):
         return v["kind"] == "app"
     if path in ("template", "template-numpy-integer"):
         return v["kind"] == "imm" and v["shape"] == "RegImmImm"
-    if path in ("sdk-array-index", "sdk-until-bound"):
+    if path in ("sdk-array-index", "sdk-until-bound", "sdk-loop-bound"):
         return v["fl"] == "vanilla" and v["kind"] == "int" and v["mn"] == "set"
     if path == "sdk":
         return (v["kind"] == "app") or (v["fl"] == "vanilla" and ((v["kind"] == "imm" and v["mn"] in ("rot_x", "rot_y", "rot_z")) or (v["kind"] == "int" and v["mn"] == "set")))
@@ -137,6 +143,11 @@ def attempt_other(path, v, cls, val, ops):
                         q = Qubit(conn)
                         m_ = q.measure()
                         loop.set_exit_condition(ValueAtMostConstraint(m_, val))
+                elif path == "sdk-loop-bound":
+                    # the value as the bound of a counted loop (either side of its start: a loop that runs, a loop that does not)
+                    arr = conn.new_array(1, init_values=[0])
+                    with conn.loop(val) as i_:
+                        arr.get_future_index(0).add(1)
                 elif path == "sdk-array-index":
                     # the value as a CONSTANT INDEX of an array entry (materialised by a `set` like any other constant)
                     arr = conn.new_array(2, init_values=[0, 1])
